@@ -1,6 +1,102 @@
 import SigpyVerif.Model.Py
 import SigpyVerif.Model.Proto
+import SigpyVerif.Model.C18
 namespace SigpyVerif.Drv.C18
+open SigpyVerif SigpyVerif.Proto SigpyVerif.C18
+
+def getI (toks : List String) (k : String) : Option Int := (kv toks k).bind parseInt?
+def getR (toks : List String) (k : String) : Option Rat := (kv toks k).bind parseRat?
+
+/-- `a|b|c` -> rationals -/
+def parseBar (s : String) : Option (List Rat) := (s.splitOn "|").mapM parseRat?
+
+/-- `x;y;z` with `-` for empty -/
+def parseSemi {α} (f : String → Option α) (s : String) : Option (List α) :=
+  if s == "-" then some [] else (s.splitOn ";").mapM f
+
+def parseCand (s : String) : Option Cand :=
+  match parseBar s with
+  | some [v, c, s'] => some { v := v, c := c, s := s' }
+  | _ => none
+
+/-- `i:v|c|s:v|c|s` -/
+def parseOuter (s : String) : Option (Nat × List Cand) :=
+  match s.splitOn ":" with
+  | [] => none
+  | i :: cs => do
+    let i' ← i.toNat?
+    let cs' ← cs.mapM parseCand
+    some (i', cs')
+
+def grid (nx : Int) (a : Array Rat) : Int → Int → Rat := fun y x => a.getD (y * nx + x).toNat 1
+
+def fmtTrace (t : List (Int × Bool)) : String :=
+  if t.isEmpty then "-" else ",".intercalate (t.map fun (k, d) => s!"{k}:{fmtBool d}")
+
+def fmtStates (t : List (Rat × Rat)) : String :=
+  if t.isEmpty then "-" else ";".intercalate (t.map fun (a, b) => s!"{fmtRat a}|{fmtRat b}")
+
+def lookup2 (tab : List (List Rat)) (lo hi : Rat) : Option Rat :=
+  tab.findSome? fun r => match r with
+    | [a, b, c] => if a == lo && b == hi then some c else none
+    | _ => none
+
+def lookup1 (tab : List (List Rat)) (s : Rat) : Option Rat :=
+  tab.findSome? fun r => match r with
+    | [a, b] => if a == s then some b else none
+    | _ => none
+
 /-- protocol handler for property C18 (tokens after the property id). -/
-def handle (_toks : List String) : String := "err bad-op"
+def handle (toks : List String) : String :=
+  match toks.head? with
+  | some "calib" =>
+    match kv toks "ax", getI toks "n", getI toks "c" with
+    | some "x", some n, some c => s!"ok {Gen.Samp.calibLoX n c} {Gen.Samp.calibHiX n c}"
+    | some "y", some n, some c => s!"ok {Gen.Samp.calibLoY n c} {Gen.Samp.calibHiY n c}"
+    | _, _, _ => "err bad-op"
+  | some "keep" =>
+    match getI toks "nx", getI toks "ny", getI toks "cx", getI toks "cy" with
+    | some nx, some ny, some cx, some cy =>
+      if Gen.Samp.radX nx cx 0 == 0 || Gen.Samp.radY ny cy 0 == 0 then "err degenerate" else
+      let cells := (pyRange0 ny).flatMap fun y => (pyRange0 nx).map fun x => (y, x)
+      let bits := String.join (cells.map fun (y, x) => fmtBool (keepAt nx ny cx cy y x))
+      let ties := cells.filter fun (y, x) => rSqAt nx ny cx cy y x == 1
+      let blk := cells.filter fun (y, x) =>
+        decide (Gen.Samp.calibLoY ny cy ≤ y ∧ y < Gen.Samp.calibHiY ny cy ∧ Gen.Samp.calibLoX nx cx ≤ x ∧ x < Gen.Samp.calibHiX nx cx)
+      let lost := blk.filter fun (y, x) => !(keepAt nx ny cx cy y x)
+      s!"ok {bits} ties={fmtIntList (ties.map fun (y, x) => y * nx + x)} lost={fmtIntList (lost.map fun (y, x) => y * nx + x)}"
+    | _, _, _, _ => "err bad-op"
+  | some "sampler" =>
+    match getI toks "nx", getI toks "ny", getI toks "cx", getI toks "cy", getI toks "ma",
+          (kv toks "rx").bind parseRatList?, (kv toks "ry").bind parseRatList?, (kv toks "p0").bind parseIntList?,
+          (kv toks "draws").bind (parseSemi parseOuter) with
+    | some nx, some ny, some cx, some cy, some ma, some rx, some ry, some [p0x, p0y], some draws =>
+      if rx.length ≠ (nx * ny).toNat || ry.length ≠ (nx * ny).toNat then "err size" else
+      let c : Cfg := { nx := nx, ny := ny, cx := cx, cy := cy, maxAttempts := ma,
+                       radX := grid nx rx.toArray, radY := grid nx ry.toArray }
+      let (s, tr, live) := runTrace c (init c p0x p0y) draws []
+      let s' := run c (init c p0x p0y) draws
+      let flat (st : PState) := (pyRange0 ny).flatMap fun y => (pyRange0 nx).map fun x => st.mask y x
+      if tr.all (fun (k, _) => k ≥ 0) && (flat s != flat s' || s.pxs != s'.pxs) then "err run-vs-trace" else
+      s!"ok mask={fmtRatList (flat s)} trace={fmtTrace tr} px={fmtIntList s.pxs} py={fmtIntList s.pys} live={fmtBool live}"
+    | _, _, _, _, _, _, _, _, _ => "err bad-op"
+  | some "driver" =>
+    match getI toks "nx", getI toks "ny", getR toks "accel", getR toks "tol", getI toks "fuel",
+          (kv toks "mids").bind (parseSemi parseBar), (kv toks "sums").bind (parseSemi parseBar) with
+    | some nx, some ny, some accel, some tol, some fuel, some mids, some sums =>
+      let e : Env := { nx := nx, ny := ny, accel := accel, tol := tol, crop := false, keep := [],
+                       mid := fun lo hi => (lookup2 mids lo hi).getD (-1),
+                       sampler := fun s => match lookup1 sums s with | some v => [v] | none => [] }
+      let st := loopStates e fuel.toNat (Gen.Samp.slopeMin0 nx ny) (Gen.Samp.slopeMax0 nx ny)
+      let exact := st.all fun (lo, hi) =>
+        let d := e.mid lo hi - Gen.Samp.slopeMid lo hi
+        decide (lo ≤ e.mid lo hi ∧ e.mid lo hi ≤ hi ∧ ratAbs d * 4503599627370496 ≤ ratAbs hi + 1 / 1000000000000000000000000000000)
+      let o := match poissonD e fuel.toNat with
+        | .returned m => s!"returned:{fmtRat (msum m)}"
+        | .raised => "raised"
+        | .unbound => "unbound"
+        | .outOfFuel => "running"
+      s!"ok states={fmtStates st} outcome={o} mid-is-rounded-midpoint={fmtBool exact}"
+    | _, _, _, _, _, _, _ => "err bad-op"
+  | _ => "err bad-op"
 end SigpyVerif.Drv.C18
